@@ -273,6 +273,48 @@ fn gen_sets(prop: &str, tier: &str) -> Vec<ProgSet> {
                 sets.push(ProgSet { programs: m, writer: None, main_reads: false, readers_see_only_v0: false, bound: Some(if thorough { 3 } else { 2 }), expect_facts: vec![] });
             }
         }
+        "C17" => {
+            // deserialize_in_place while other threads read and release the value the handle shared
+            let mut writers = vec![];
+            for op in [DeserInPlaceW, DeserInPlaceErr] {
+                writers.push(Program { init: Kind::A, ops: vec![op] });
+                writers.push(Program { init: Kind::A, ops: vec![op, Read] });
+                writers.push(Program { init: Kind::A, ops: vec![Read, op] });
+                writers.push(Program { init: Kind::A, ops: vec![Clone, op, Drop] });
+                writers.push(Program { init: Kind::A, ops: vec![op, op] });
+                if thorough {
+                    writers.push(Program { init: Kind::A, ops: vec![op, Clone, Drop] });
+                    writers.push(Program { init: Kind::A, ops: vec![GetMutW, op] });
+                    writers.push(Program { init: Kind::A, ops: vec![op, GetMutW] });
+                }
+            }
+            writers.push(Program { init: Kind::A, ops: vec![DeserInPlaceErr, DeserInPlaceW] });
+            let mut rs = vec![];
+            for k in [Kind::A, Kind::O, Kind::U2] {
+                rs.push(Program { init: k, ops: vec![Read, Drop] });
+                rs.push(Program { init: k, ops: vec![Drop] });
+                rs.push(Program { init: k, ops: vec![Clone, Read, Drop, Drop] });
+                rs.push(Program { init: k, ops: vec![Read, Read] });
+                if thorough {
+                    rs.push(Program { init: k, ops: vec![CloneArc, DropFirst, Read] });
+                }
+            }
+            for w in &writers {
+                for r in &rs {
+                    for main_reads in [false, true] {
+                        sets.push(ProgSet { programs: vec![w.clone(), r.clone()], writer: Some(0), main_reads, readers_see_only_v0: true, bound: None, expect_facts: vec![] });
+                    }
+                }
+                for (i, r1) in rs.iter().enumerate() {
+                    for r2 in &rs[i..] {
+                        if !thorough && r1.ops.len() + r2.ops.len() > 3 {
+                            continue;
+                        }
+                        sets.push(ProgSet { programs: vec![w.clone(), r1.clone(), r2.clone()], writer: Some(0), main_reads: false, readers_see_only_v0: true, bound: Some(if thorough { 3 } else { 2 }), expect_facts: vec![] });
+                    }
+                }
+            }
+        }
         _ => panic!("no loom program sets for {}", prop),
     }
     sets
